@@ -59,7 +59,7 @@ theorem alookup_aerase_ne (l : List (α × β)) (a a' : α) (h : a ≠ a') :
       · subst hk'; simp [aerase, alookup, hk]
       · simp [aerase, alookup, hk, hk', ih]
 
-theorem alookup_filter_of_pos (l : List (α × β)) (p : α → Bool) (a : α) (h : p a = true) :
+theorem alookup_filterKey_of_pos (l : List (α × β)) (p : α → Bool) (a : α) (h : p a = true) :
     alookup (l.filter (fun q => p q.1)) a = alookup l a := by
   induction l with
   | nil => rfl
@@ -71,7 +71,7 @@ theorem alookup_filter_of_pos (l : List (α × β)) (p : α → Bool) (a : α) (
       · simp [List.filter, hp, alookup, hk, ih]
       · simp [List.filter, hp, alookup, hk, ih]
 
-theorem alookup_filter_some (l : List (α × β)) (p : α → Bool) (a : α) (b : β)
+theorem alookup_filterKey_some (l : List (α × β)) (p : α → Bool) (a : α) (b : β)
     (h : alookup (l.filter (fun q => p q.1)) a = some b) : alookup l a = some b := by
   induction l with
   | nil => simp [alookup] at h
